@@ -23,13 +23,37 @@ package clickhouse_transpiler
 //@   loop 1:
 //@     invariant old(a.isAliased) ==> a.isAliased
 //@     modifies a.isAliased, elems(subs)
-//@ func (*AttrConditionPlanner).maybeCreateWhere
-//@   modifies a.sqlConds, a.where
-//@ func (*AttrConditionPlanner).aggregator
-//@   modifies a.AggregatedAttr, a.where
+// The SQL conditions of the terms are built on the first execution and reused by
+// later ones: after every execution there is exactly one condition per term - a
+// second execution of the plan (one per portion of a complex request) adds nothing.
+//@ func (*AttrConditionPlanner).getTerm
+//@   modifies nothing
+//@ func (*AttrConditionPlanner).maybeCreateWhere [C14]
+//@   flag checks=-index,-assert
+//@   requires built-or-not: len(a.sqlConds) == 0 || len(a.sqlConds) == len(a.Terms)
+//@   modifies a.sqlConds, a.where, elems(a.sqlConds), elems(a.where)
+//@   ensures one-condition-per-term: result == nil ==> len(a.sqlConds) == len(a.Terms)
+//@   ensures reused-when-built: old(len(a.sqlConds)) > 0 ==> result == nil && a.sqlConds == old(a.sqlConds) && a.where == old(a.where)
+//@   loop 1:
+//@     invariant rangeindex >= -1 && rangeindex + 1 <= len(a.Terms) && len(a.sqlConds) == rangeindex + 1
+//@     modifies a.sqlConds, a.where, elems(a.sqlConds), elems(a.where)
+// Adding the aggregated attribute to a statement leaves the plan's own description
+// of that attribute alone: stripping the span. / resource. / . prefix is done on a
+// copy, so a second execution strips the same text again and reads the same key.
+//@ iface (ISelect).GetSelect()
+//@   modifies nothing
+//@ iface (ISelect).Select(cols)
+//@   modifies nothing
+//@ func (*AttrConditionPlanner).aggregator [C14]
+//@   flag checks=-index,-assert
+//@   modifies a.where, elems(a.where)
 //@ func (*AttrConditionPlanner).Process [C11,C14]
 //@   requires starts-unaliased: !a.isAliased
+//@   requires conditions-built-or-not: len(a.sqlConds) == 0 || len(a.sqlConds) == len(a.Terms)
 //@   ensures ends-unaliased: result1 == nil ==> !a.isAliased
+//@   ensures conditions-built-once: result1 == nil ==> len(a.sqlConds) == len(a.Terms)
+//@   loop 1:
+//@     modifies elems(rawCachedTraceIds)
 
 // A string term: the key equality and-ed with the value comparison the
 // operator names (= / != on the value, =~ / !~ as a regular-expression match
